@@ -134,12 +134,34 @@ def r_symbols(repo, rep, R='R20.2'):
     rep.check(not missing, R, '%s:%s <module>' % (JRD, val.lineno), 'ja-reader:symbols',
               'the reader recognises all %d rule symbols the Japanese grammar can print (%s)' % (len(need), how),
               'ja_of can print the symbols %s which the reader does not recognise (the node would be read as a leaf)' % missing)
-    # dispatch reads the symbol after the brace
-    nn = jm.get('_JaCCGLineReader.next_node')
-    t = src(nn)
-    rep.check('self.index + 1:end' in t.replace(' ', '').replace('self.index+1:end', 'self.index + 1:end') and 'in combinators' in t, R,
-              '%s:%s next_node' % (JRD, nn.lineno), 'ja-reader:dispatch', 'records are dispatched on the text between the brace and the first blank',
-              'next_node does not test line[index+1:end] against the symbol set')
+    # dispatch reads the symbol after the brace: node paths have established `text between brace and first blank in
+    # combinators`, leaf paths its negation
+    rp_ = codec.ReaderPaths(jm, '_JaCCGLineReader')
+
+    def symbol_test(st):
+        for c, pol, _ in st.conds:
+            f = logic.formula(c)
+            if not pol:
+                f = logic.neg(f)
+            neg = f[0] == 'not'
+            a = f[1] if neg else f
+            if a[0] == 'atom' and a[1][0] == 'in' and (a[1][2] == N('combinators') or a[1][2][0] in ('set', 'tuple', 'list')):
+                t_ = a[1][1]
+                sl = t_[2] if t_[0] == 'sub' else None
+                okt = t_[0] == 'sub' and t_[1] == A(N('self'), 'line') and sl is not None and sl[0] == 'slice' and \
+                    sl[1] in (('binop', '+', A(N('self'), 'index'), C(1)), ('binop', '+', C(1), A(N('self'), 'index'))) and sl[2] is not None and sl[2][0] == 'call' \
+                    and sl[2][1] == A(A(N('self'), 'line'), 'find') and sl[2][2] == (C(' '), A(N('self'), 'index'))
+                return okt, not neg
+        return None, None
+    okd = bool(rp_.by_kind['leaf']) and bool(rp_.node_paths())
+    for st, o in rp_.by_kind['leaf']:
+        okt, pos = symbol_test(st)
+        okd = okd and okt is True and pos is False
+    for st, o in rp_.node_paths():
+        okt, pos = symbol_test(st)
+        okd = okd and okt is True and pos is True
+    rep.check(okd, R, '%s:%s _JaCCGLineReader' % (JRD, rp_.entry.lineno), 'ja-reader:dispatch', 'records are dispatched on the text between the brace and the first blank',
+              'the reader does not decide leaf / node by testing line[index+1:end] against the symbol set')
     return len(need)
 
 
@@ -405,13 +427,10 @@ def r_ja(repo, rep):
     rep.check(okn, 'R20.6', w, 'ja_of:node-template', 'a node is written "{symbol cat child child}" with the rule symbol first',
               'node template is %s' % [codec.tok_text(t)[:60] for t in nt])
     jm = repo.module(JRD)
-    pl = jm.get('_JaCCGLineReader.parse_leaf')
-    wl = '%s:%s _JaCCGLineReader.parse_leaf' % (JRD, pl.lineno)
-    cur = codec.Cursor(pl)
+    rp_ = codec.ReaderPaths(jm, '_JaCCGLineReader')
+    wl = '%s:%s _JaCCGLineReader (leaf records)' % (JRD, rp_.entry.lineno)
     nret = 0
-    for st, o in cur.paths:
-        if o != 'return':
-            continue
+    for st, o in rp_.by_kind['leaf']:
         nret += 1
         args = st.data.get('args', {})
         okseq = [show(a[0]) if a else None for k, a in sorted(args.items())] == ["' '", "'}'"]
@@ -431,14 +450,10 @@ def r_ja(repo, rep):
             n_names = len(dict(tokc[0][3]))
             rep.check(n_names == 4 and fields is not None and len(fields) == 4, 'R20.6', wl, 'ja-reader:leaf:arity',
                       'the reader unpacks the 4 "/"-separated fields the writer emits', 'the reader expects %d fields, the writer emits %s' % (n_names, len(fields) if fields else '?'))
-    rep.floor('returning paths of ja parse_leaf', nret, 1)
-    pt = jm.get('_JaCCGLineReader.parse_tree')
-    wt = '%s:%s _JaCCGLineReader.parse_tree' % (JRD, pt.lineno)
-    cur = codec.Cursor(pt)
+    rep.floor('returning leaf paths of the ja reader', nret, 1)
+    wt = '%s:%s _JaCCGLineReader (node records)' % (JRD, rp_.entry.lineno)
     seen = {'make_unary': False, 'make_binary': False}
-    for st, o in cur.paths:
-        if o != 'return':
-            continue
+    for st, o in rp_.node_paths():
         for kind in seen:
             mk = [e[1] for e in st.events if e[0] == 'call' and e[1][1] == A(N('Tree'), kind)]
             if not mk:
